@@ -203,6 +203,14 @@ def nested_list_grammars():
         for sep in (L(","), RE(",|;")):
             yield [("M", {}, A("rows", "+=", REF("Row"), sep)), ("Row", {}, SEQ(L("r"), A("cells", op, REF("Cell"), sep))), cell]
             yield [("M", {}, A("rows", "+=", REF("Row"), sep)), ("Row", {}, SEQ(L("r"), A("cells", op, REF("Cell"), sep), gramgen.OPT(L("e")) if hasattr(gramgen, "OPT") else L("r"))), cell]
+    # the list is the ONLY element of its rule (a node with a single child)
+    for sep in (L(","), RE(",|;")):
+        yield [("M", {}, SEQ(A("g", "=", REF("G")), sep, L("r"))), ("G", {}, A("nums", "+=", REF("INT"), sep))]
+        yield [("M", {}, SEQ(L("r"), A("gs", "+=", REF("G")))), ("G", {}, SEQ(A("nums", "+=", REF("INT"), sep), ("opt", SEQ(sep, L("r")))))]
+    # the separated repetition is a GROUP (not the right-hand side of an assignment): its nodes are spliced into the enclosing rule's node
+    for sep in (L(","), RE(",|;")):
+        yield [("M", {}, A("calls", "+=", REF("Call"), sep)), ("Call", {}, SEQ(L("r"), ("star", SEQ(L(":"), A("args", "+=", REF("INT"))), sep, False)))]
+        yield [("M", {}, A("calls", "+=", REF("Call"), sep)), ("Call", {}, SEQ(A("n", "=", REF("ID")), ("plus", SEQ(L(":"), A("a", "=", REF("INT"))), sep, False)))]
     yield [("M", {}, A("xs", "+=", REF("X"))), ("X", {}, ALT(REF("Call"), REF("Sep"))), ("Call", {}, SEQ(L("c"), A("args", "*=", REF("Cell"), RE(",|;")))),
            ("Sep", {}, SEQ(L(","), A("name", "=", REF("ID")))), cell]
 
